@@ -22,7 +22,8 @@ PROP = {
         "bytes below the receive threshold when the peer closes are not required to be presented (the TCP classes give no access to them after the close)",
         "a send-complete notification that is lost because disable() was called between the send and the notification is left free; without disable() it must follow the last send (pinned by the unit tests)",
         "callbacks that still arrive for a connection in the pass in which the harness disconnected it are verified for content but not forbidden (fd-event dispatch after disable is C03's subject); stale TcpServer tokens after stop() are not used (cabinet token aliasing is C08's subject)",
-        "sizes: one send <= 1 MiB + 4 KiB, <= 3 MiB sent and <= 1.5 MiB received per case; loopback TCP is 1/4 of the server/client cases, the tbox socket keeps its default buffers and the peer's are not shrunk below 8 KiB (a 2 KiB window stalls for seconds on zero-window probes); while the missing bytes are demonstrably in the kernel (TIOCOUTQ of the tbox socket > 0, or the socket already closed orderly) the harness waits up to 20 s of real time, otherwise 3 s",
+        "after 'peer writes its last bytes and closes, the application sends at once' (op pfin) on TCP only the bytes the local kernel already held when the peer closed are required to be presented (a send to a closed TCP peer makes its kernel discard what it had not transmitted); on unix sockets all of them",
+        "sizes: one send <= 1 MiB + 4 KiB, <= 3 MiB sent and <= 1.5 MiB received per case; loopback TCP is 1/4 of the server/client cases, the tbox socket keeps its default buffers and the peer's are not shrunk below 8 KiB (a 2 KiB window stalls for seconds on zero-window probes); while the missing bytes are demonstrably in the kernel (TIOCOUTQ of the tbox socket > 0, or the socket already closed orderly) the harness waits up to 8 s of real time, otherwise 3 s; a TCP case whose missing bytes are all demonstrably held by the kernel when that budget ends (zero-window probing with back-off) is counted as inconclusive (class tcp_kernel_stall_inconclusive), not as a violation",
         "unix-domain clients do not bind their own socket (a bound client makes TcpAcceptor read past a 16-byte sockaddr: outside this statement, see NOTES.md / proposed-fixes/02)",
     ],
 }
